@@ -60,7 +60,7 @@ TStep ==
                 post == r[1]
                 em == [k \in 1..Len(e.em) |-> <<e.em[k][1], e.em[k][2], e.em[k][3]>>]
                 \* intervals that leave the retention horizon by the specified rules (age, then the newest MAX+2)
-                gone == {<<s, i>> \in Series \X (0..T.maxts) : Idx(a.buf[s], i) # 0 /\ Idx(post.buf[s], i) = 0}
+                gone == UNION {{<<s, a.buf[s][k].i>> : k \in {j \in 1..Len(a.buf[s]) : Idx(post.buf[s], a.buf[s][j].i) = 0}} : s \in Series}
                 early == \E s \in Series : \E k \in 1..Len(post.buf[s]) : Idx(obs.buf[s], post.buf[s][k].i) = 0 IN
             /\ a' = obs
             /\ emitted' = <<>>
